@@ -97,7 +97,7 @@ def run(ck: Check):
                                     signature={"class": name, "what": "output"})
                 if not residual:
                     v = (ye.double() * tau)
-                    if (v - v.round()).abs().max() > 1e-4 or (v < -1e-6).any():
+                    if not ((v - v.round()).abs().max() <= 1e-4) or (v < -1e-6).any():
                         ck.disagree("eval output times tau is not an integer count", case, observed=ye.tolist(),
                                     signature={"class": name, "what": "integral"})
                 coq_items.append((coqname, k, shape, shapes, case))
